@@ -31,7 +31,18 @@ BOUNDS = {"quick": "<= 2 frames of <= 2 bytes + a 1-2 byte tail, separator LF/CR
 OUTSIDE = "real sockets, TLS transports, AsyncTCPNetworkClient wiring (its endpoint is the one driven here)"
 
 
-def endpoint(lens: list, tail: int, seplen: int, path: str, mode: str, bufsize: int = 2):
+class NoneSep(L.RawSep):
+    """a payload of b"N" deserializes to the packet value None (like JSON null): a valid packet that is falsy/None"""
+
+    __slots__ = ()
+
+    def deserialize(self, data):
+        if len(data) == 1 and data[0] == 0x4E:
+            return None
+        return super().deserialize(data)
+
+
+def endpoint(lens: list, tail: int, seplen: int, path: str, mode: str, bufsize: int = 2, none_packets: bool = False, so_error: bool = False):
     """mode: sync | async | client | client-iter | aclient"""
 
     def scenario(S):
@@ -40,7 +51,7 @@ def endpoint(lens: list, tail: int, seplen: int, path: str, mode: str, bufsize: 
         stream = b""
         ends = []
         for i, n in enumerate(lens):
-            p = S.bytes(n, f"f{i}_")
+            p = S.bytes_in(n, (0x4E, 0x41 + i), f"f{i}_") if (none_packets and n == 1) else S.bytes(n, f"f{i}_")
             S.assume(p.find(sep) < 0)
             S.assume((p + sep).find(sep) == n)
             if n:
@@ -59,7 +70,8 @@ def endpoint(lens: list, tail: int, seplen: int, path: str, mode: str, bufsize: 
         for end in ends:
             if end <= e:
                 complete += 1
-        ser = L.RawSep(sep, limit=max(lens + [tail, 1]) + 2 * seplen + 2)
+        ser = (NoneSep if none_packets else L.RawSep)(sep, limit=max(lens + [tail, 1]) + 2 * seplen + 2)
+        expected_values = [None if (none_packets and len(p) == 1 and p[0] == 0x4E) else p for p in frames]
         proto = BufferedStreamProtocol(ser) if path == "buf" else StreamProtocol(ser)
         H = len(lens) + 3
         outcomes = []
@@ -115,6 +127,9 @@ def endpoint(lens: list, tail: int, seplen: int, path: str, mode: str, bufsize: 
             else:
                 env = Env(S, fuel=6 * (N + H) + 20, max_eagain=1, cap=max(N, 1), symbolic_time=False)
                 sock = FakeSocket(env, incoming=sent, eof_after=True, eof_once=True)
+                if so_error:
+                    # the peer closed abortively: the kernel holds a pending socket error (read and reset by getsockopt(SO_ERROR))
+                    sock.pending_so_error = 104
                 if mode == "sync":
                     trs = SocketStreamTransport(sock, INF, selector_factory=lambda: StubSelector(env))
                     ep = StreamEndpoint(trs, proto, max_recv_size=bufsize)
@@ -160,7 +175,8 @@ def endpoint(lens: list, tail: int, seplen: int, path: str, mode: str, bufsize: 
         npk = 0
         for kind, val in outcomes:
             if kind == "pkt":
-                if seen_eof or npk >= complete or not (val == frames[npk]):
+                want = expected_values[npk] if npk < len(expected_values) else None
+                if seen_eof or npk >= complete or not (val is None if want is None else val == want):
                     ok = False
                 npk += 1
             elif kind == "eof":
@@ -199,4 +215,9 @@ def shards(tier: str):
                         if quick and mode.startswith("client") and (seplen == 2 and path == "buf"):
                             continue
                         add(f"ep/{mode}/{path}/S{seplen}/{nm}/b{bufsize}", dict(lens=lens, tail=tail, seplen=seplen, path=path, mode=mode, bufsize=bufsize), cost=4 ** (sum(lens) + tail + seplen * len(lens)))
+    # packets whose value is None (falsy) must be delivered like any other; a pending socket error must not eat packets
+    for path in ("copy", "buf"):
+        for mode in ("sync", "async", "client"):
+            add(f"none/{mode}/{path}/1+1t0", dict(lens=[1, 1], tail=0, seplen=1, path=path, mode=mode, bufsize=16, none_packets=True), cost=500)
+        add(f"soerror/client/{path}/1+1t1", dict(lens=[1, 1], tail=1, seplen=1, path=path, mode="client", bufsize=16, so_error=True), cost=300)
     return out
